@@ -28,7 +28,7 @@ protected:
     long int getTreeCoordinate(const RealType inRelativePosition, const long int inDim) const {
         assert(inRelativePosition >= 0 && inRelativePosition <= configuration.getBoxWidths()[inDim]);
         if(inRelativePosition == configuration.getBoxWidths()[inDim]){
-            return (1 << (configuration.getTreeHeight()-1))-1;
+            return (IndexType(1) << (configuration.getTreeHeight()-1))-1;
         }
         const RealType indexFReal = inRelativePosition / configuration.getLeafWidths()[inDim];
         return static_cast<long int>(indexFReal);
@@ -159,8 +159,8 @@ public:
             }
         }
 
-        const long int boxLimite = (1 << (inLevel));
-        const long int boxLimiteParent = (1 << (inLevel-1));
+        const long int boxLimite = (IndexType(1) << (inLevel));
+        const long int boxLimiteParent = (IndexType(1) << (inLevel-1));
 
         const IndexType cellIndex = inMIndex;
         const auto cellPos = getBoxPosFromIndex(cellIndex);
@@ -291,8 +291,8 @@ public:
             }
         }
 
-        const long int boxLimite = (1 << (inLevel));
-        const long int boxLimiteParent = (1 << (inLevel-1));
+        const long int boxLimite = (IndexType(1) << (inLevel));
+        const long int boxLimiteParent = (IndexType(1) << (inLevel-1));
 
         for(long int idxCell = 0 ; idxCell < inGroup.getNbCells() ; ++idxCell){
             const IndexType cellIndex = inGroup.getCellSpacialIndex(idxCell);
@@ -417,7 +417,7 @@ public:
 
     auto getNeighborListForIndex(const IndexType cellIndex, const long int inLevel, const bool upperExclusion = false) const{
         assert(inLevel >= 0);
-        const long int boxLimite = (1 << (inLevel));
+        const long int boxLimite = (IndexType(1) << (inLevel));
 
         std::vector<IndexType> indexes;
         indexes.reserve(TbfUtils::lipow(3,Dim)/2);
@@ -514,7 +514,7 @@ public:
     template <class GroupClass>
     auto getNeighborListForBlock(const GroupClass& inGroup, const long int inLevel, const bool upperExclusion = false, const bool testSelfInclusion = true) const{
         assert(inLevel >= 0);
-        const long int boxLimite = (1 << (inLevel));
+        const long int boxLimite = (IndexType(1) << (inLevel));
 
         std::vector<TbfXtoXInteraction<IndexType>> indexesInternal;
         indexesInternal.reserve(inGroup.getNbLeaves());
